@@ -333,6 +333,33 @@ pub fn gen_case(r: &mut Rng, corpus: &Corpus, max_len: usize) -> Case {
     }
     let mut settings = gen_settings(r, bytes.len());
     let mut kind = kind.to_string();
+    // fewer decoded characters than steps while the bytes do not fit the window
+    // (multi-byte text, tiny chunk_size -- also chunk_size 0)
+    if r.chance(1, 12) {
+        let st = r.range(2, 40);
+        let k = r.range(1, st);
+        let pool: Vec<char> = "\u{e9}\u{444}\u{4f60}\u{3042}\u{1f600}\u{5d0}\u{3b1} a.".chars().collect();
+        let t: String = (0..k).map(|_| *r.pick(&pool)).collect();
+        let enc = *r.pick(&["utf-8", "utf-8", "utf-16le", "utf-16be", "gb18030", "euc-jp", "iso-2022-jp"]);
+        let mut b: Vec<u8> = vec![];
+        if enc.starts_with("utf-16") || r.chance(1, 3) {
+            for (e, m) in marks() {
+                if e == enc {
+                    b.extend_from_slice(m);
+                }
+            }
+        }
+        b.extend(encode_text(&t, enc).unwrap_or_else(|| t.as_bytes().to_vec()));
+        if r.chance(1, 4) {
+            b = b"\x1b(B".repeat(r.range(1, 60)); // escape sequences only: decodes to nothing
+        }
+        if !b.is_empty() {
+            bytes = b;
+            settings.steps = st;
+            settings.chunk_size = r.below(2).min(bytes.len() / st);
+            kind.push_str("@few-chars");
+        }
+    }
     // exactly on / next to the window boundary len == steps * chunk_size with several steps
     if r.chance(1, 7) && bytes.len() >= 4 {
         let st = r.range(2, 9.min(bytes.len()));
